@@ -313,83 +313,116 @@ func r93(c *fw.Ctx) {
 		return
 	}
 	info := p.TypesInfo
-	// the rename loop
-	var loop *ast.ForStmt
-	inspectFunc(fd, func(n ast.Node) bool {
-		if fs, ok := n.(*ast.ForStmt); ok && loop == nil {
-			loop = fs
-		}
-		return true
-	})
-	if loop == nil || loop.Cond == nil {
-		c.Undecided(rule, "importName/shape", fd.Pos(), "rename loop not found")
+	// Path form (no particular loop shape is assumed): on every normal path, after the last assignment of the
+	// returned candidate, both membership tests were made about that candidate (and the import test about the
+	// same file) with a false outcome, and the candidate is registered for the file afterwards.
+	var cand, fileParam types.Object
+	if fd.Type.Results != nil && len(fd.Type.Results.List) > 0 && len(fd.Type.Results.List[0].Names) > 0 {
+		cand = info.Defs[fd.Type.Results.List[0].Names[0]]
+	}
+	if len(fd.Type.Params.List) > 0 && len(fd.Type.Params.List[0].Names) > 0 {
+		fileParam = info.Defs[fd.Type.Params.List[0].Names[0]]
+	}
+	if cand == nil || fileParam == nil {
+		c.Undecided(rule, "importName/shape", fd.Pos(), "the function no longer has a named candidate result and a file parameter")
 		return
 	}
-	env := &e6env{info: info, subst: map[types.Object]string{}}
-	b := env.boolOf(loop.Cond)
-	set := map[string]bool{}
-	b.atoms(set)
-	var aName, aImp string
-	for a := range set {
-		if strings.Contains(a, "hasName(") {
-			aName = a
-		}
-		if strings.Contains(a, "hasImportName(") {
-			aImp = a
-		}
+	paths, trunc := enumPathsN(info, fd.Body, 2)
+	if trunc {
+		c.Undecided(rule, "importName/paths", fd.Pos(), "too many paths")
+		return
 	}
-	ok := aName != "" && aImp != "" && len(set) == 2
-	if ok {
-		for _, x := range []bool{false, true} {
-			for _, y := range []bool{false, true} {
-				if b.eval(map[string]bool{aName: x, aImp: y}) != (x || y) {
-					ok = false
+	isIdentOf := func(e ast.Expr, o types.Object) bool {
+		id, ok := unparen(e).(*ast.Ident)
+		return ok && info.Uses[id] == o
+	}
+	var alias types.Object // a variable the candidate was last copied from (ret = name)
+	isTest := func(e ast.Expr, method string, nargs int) bool {
+		call, ok := unparen(e).(*ast.CallExpr)
+		if !ok || len(call.Args) != nargs || !isFunc(callee(info, call), fw.Mod, "autoNames."+method) {
+			return false
+		}
+		if nargs == 2 && !isIdentOf(call.Args[0], fileParam) {
+			return false
+		}
+		return isIdentOf(call.Args[nargs-1], cand) || (alias != nil && isIdentOf(call.Args[nargs-1], alias))
+	}
+	nPaths, nBoth, nReg, nRenamedPaths := 0, 0, 0, 0
+	badBoth, badReg := "", ""
+	for _, pa := range paths {
+		if pa.Abnormal {
+			continue
+		}
+		nPaths++
+		// index of the last node that assigns the candidate (assignments inside an if-init are cfg nodes too)
+		last := 0
+		alias = nil
+		for i, n := range pa.Nodes {
+			ast.Inspect(n, func(m ast.Node) bool {
+				if as, ok := m.(*ast.AssignStmt); ok {
+					for k, l := range as.Lhs {
+						if id, ok := unparen(l).(*ast.Ident); ok && (info.Uses[id] == cand || info.Defs[id] == cand) {
+							last = i + 1
+							alias = nil
+							if len(as.Lhs) == len(as.Rhs) {
+								if rid, ok := unparen(as.Rhs[k]).(*ast.Ident); ok {
+									if v, ok := info.Uses[rid].(*types.Var); ok && v != cand {
+										alias = v
+									}
+								}
+							}
+						}
+					}
 				}
+				return true
+			})
+		}
+		hasN, hasI := false, false
+		var trail []string
+		for _, f := range expandFacts(pa.Facts) {
+			if f.At <= last {
+				continue
+			}
+			trail = append(trail, sprintf("%s=%v", exprString(f.Cond), f.Val))
+			if !f.Val && isTest(f.Cond, "hasName", 1) {
+				hasN = true
+			}
+			if !f.Val && isTest(f.Cond, "hasImportName", 2) {
+				hasI = true
 			}
 		}
-	}
-	c.Check(ok, rule, "importName/loop-tests-both-sets", loop.Cond.Pos(), "the rename loop must continue while the candidate is a declared name OR an import name of the same file; condition is %s", exprString(loop.Cond))
-	// both tests are about the candidate, the import test about the same file
-	candOK := false
-	if ok {
-		var results []string
-		if fd.Type.Results != nil {
-			for _, f := range fd.Type.Results.List {
-				for _, nm := range f.Names {
-					results = append(results, nm.Name)
+		if hasN && hasI {
+			nBoth++
+		} else if badBoth == "" {
+			badBoth = sprintf("after the last assignment of the candidate only {%s} is established", strings.Join(trail, "; "))
+		}
+		reg := false
+		for i, n := range pa.Nodes {
+			if i < last {
+				continue
+			}
+			ast.Inspect(n, func(m ast.Node) bool {
+				if call, ok := m.(*ast.CallExpr); ok && isFunc(callee(info, call), fw.Mod, "autoNames.useImportName") && len(call.Args) == 2 &&
+					isIdentOf(call.Args[0], fileParam) && isIdentOf(call.Args[1], cand) {
+					reg = true
 				}
-			}
+				return true
+			})
 		}
-		if len(results) > 0 {
-			cand := results[0]
-			fileParam := fd.Type.Params.List[0].Names[0].Name
-			candOK = strings.Contains(aName, "("+cand+")") && strings.Contains(aImp, "("+fileParam+", "+cand+")")
+		if reg {
+			nReg++
+		} else if badReg == "" {
+			badReg = "a path returns a candidate that was not registered for the file after it was chosen"
 		}
-	}
-	c.Check(candOK, rule, "importName/tests-candidate", loop.Cond.Pos(), "both membership tests must be asked about the current candidate name (and the import test about the same file)")
-	// registration after the loop
-	reg := false
-	for _, st := range fd.Body.List {
-		if es, ok := st.(*ast.ExprStmt); ok && es.Pos() > loop.End() {
-			if call, ok := es.X.(*ast.CallExpr); ok && isFunc(callee(info, call), fw.Mod, "autoNames.useImportName") && len(call.Args) == 2 {
-				reg = true
-			}
+		if last > 1 {
+			nRenamedPaths++
 		}
 	}
-	c.Check(reg, rule, "importName/registers-result", fd.Pos(), "the chosen import name must be registered for the file, or two imports of one file can receive the same name")
-	// the candidate changes in the loop body (termination + freshness)
-	changes := false
-	ast.Inspect(loop.Body, func(n ast.Node) bool {
-		if as, ok := n.(*ast.AssignStmt); ok {
-			for _, l := range as.Lhs {
-				if exprString(l) == "ret" {
-					changes = true
-				}
-			}
-		}
-		return true
-	})
-	c.Check(changes, rule, "importName/candidate-advances", loop.Pos(), "the candidate must change on every iteration of the rename loop")
+	c.Check(nPaths > 0 && nBoth == nPaths, rule, "importName/loop-tests-both-sets", fd.Pos(),
+		"%d of %d normal paths establish that the returned name is neither a declared name nor an import name of the same file: %s", nBoth, nPaths, badBoth)
+	c.Check(nPaths > 0 && nReg == nPaths, rule, "importName/registers-result", fd.Pos(),
+		"%d of %d normal paths register the returned name for the file: %s — two imports of one file could receive the same name", nReg, nPaths, badReg)
+	c.Check(nRenamedPaths > 0, rule, "importName/candidate-advances", fd.Pos(), "some path must choose a new candidate when the first one is taken")
 	// key consistency of the four set primitives
 	keyOf := func(name string) (string, string) {
 		f, pp := funcDecl(c, "(*autoNames)."+name)
